@@ -3,6 +3,7 @@ package engines
 import (
 	"errors"
 	"fmt"
+	"io"
 	"os"
 	"regexp"
 	"sort"
@@ -98,6 +99,7 @@ type ksWorld struct {
 	immutable bool
 	globalMW  bool // a middleware in front of everything (then every request has a matched route)
 	customEH  bool // the application configures its own ErrorHandler (observes, then delegates)
+	customCtx bool // the application brings its own context type (NewCtxFunc)
 	kept      []*kept
 	unstable  []string
 }
@@ -123,6 +125,33 @@ type bindU struct {
 	Name string   `uri:"name"`
 	IDs  []string `uri:"id"`
 }
+
+// ksCtx: an application-defined context type (the custom request handler of the router serves it)
+type ksCtx struct {
+	fiber.DefaultCtx
+}
+
+// ksViews: a template engine that prints what it is given
+type ksViews struct{}
+
+func (ksViews) Load() error { return nil }
+func (ksViews) Render(w io.Writer, name string, bind any, _ ...string) error {
+	m, ok := bind.(fiber.Map)
+	if !ok {
+		_, err := fmt.Fprintf(w, "%s:%v", name, bind)
+		return err
+	}
+	ks := make([]string, 0, len(m))
+	for k := range m {
+		ks = append(ks, k)
+	}
+	sort.Strings(ks)
+	for _, k := range ks {
+		fmt.Fprintf(w, "%s=%v;", k, m[k])
+	}
+	return nil
+}
+
 type bindJ struct {
 	Name string `json:"name"`
 	Age  int    `json:"age"`
@@ -277,6 +306,11 @@ func (w *ksWorld) build(cfg fiber.Config) *fiber.App {
 		}
 	}
 	app := fiber.New(cfg)
+	if w.customCtx {
+		app.NewCtxFunc(func(a *fiber.App) fiber.CustomCtx {
+			return &ksCtx{DefaultCtx: *fiber.NewDefaultCtx(a)}
+		})
+	}
 	use := func(h fiber.Handler) {
 		if w.globalMW {
 			app.Use(h)
@@ -737,8 +771,12 @@ func ksRun(s *simrt.Sim, info *harness.RunInfo, immutMode bool) {
 	}
 	cfgLine := fmt.Sprintf("immutMode=%v immutable=%v caseSensitive=%v strict=%v unescape=%v proxyHeader=%q ipValidation=%v conns=%d preempt=%d net=%+v stream=%v reducemem=%v", immutMode, cfg.Immutable, cfg.CaseSensitive, cfg.StrictRouting, cfg.UnescapePath, cfg.ProxyHeader, cfg.EnableIPValidation, nconn, preempt, netw, cfg.StreamRequestBody, cfg.ReduceMemoryUsage)
 	ksFiles()
-	w := &ksWorld{s: s, immutMode: immutMode, immutable: cfg.Immutable, globalMW: !s.Chance(300), customEH: s.Chance(400)}
-	cfgLine += fmt.Sprintf(" globalMW=%v customEH=%v", w.globalMW, w.customEH)
+	w := &ksWorld{s: s, immutMode: immutMode, immutable: cfg.Immutable, globalMW: !s.Chance(300), customEH: s.Chance(400), customCtx: s.Chance(250)}
+	if s.Chance(300) {
+		cfg.Views = ksViews{}
+		cfg.PassLocalsToViews = s.Chance(500)
+	}
+	cfgLine += fmt.Sprintf(" globalMW=%v customEH=%v customCtx=%v views=%v passLocals=%v", w.globalMW, w.customEH, w.customCtx, cfg.Views != nil, cfg.PassLocalsToViews)
 	s.Logf("cfg %s", cfgLine)
 	// a valid flash cookie value, as a server issues it
 	flashValid := ""
